@@ -1,13 +1,17 @@
 (** Extraction of the executable model of the 20 lint analyzers (property C18).
     Directives: those of ExtrOcamlBasic only; Z / positive / nat stay Coq inductives.
     [run] is the model (fixed code), [run_old] the analyzers before F5/F6, [spec_diagnostics] the
-    declarative specification (evaluated by the driver as a cross-check: run = spec is a theorem). *)
+    declarative specification (evaluated by the driver as a cross-check: run = spec is a theorem).
+    [cantool_lint_output] is the model of cmd/cantool's lint command (Dbc/LintCli.v), [file_blocks] /
+    [file_reports] its declarative description (cross-check: equality is a theorem), [source_line] /
+    [line_around] the source-line function and its specification. *)
 From Coq Require Extraction ExtrOcamlBasic.
 From Coq Require Import ZArith List.
-From CanVerif Require Import Dbc.Ast Dbc.Lint Dbc.LintSpec.
+From CanVerif Require Import Dbc.Ast Dbc.Lint Dbc.LintSpec Dbc.LintCli Dbc.LintCliProofs.
 Extraction Language OCaml.
 Extraction "model.ml"
   run run_old spec_diagnostics all_analyzers
+  cantool_lint_output cantool_analyzers pass_name source_line line_around file_blocks file_reports
   utf8_runes is_camel_case camel_case has_prefix has_suffix f64_gt f64_to_int64 decimal_len
   def_pos is_independent_signals_message msgid_valid file
   Z.add Z.mul Z.sub Z.ltb Z.leb Z.eqb Z.of_nat Z.to_nat Z.pow Z.modulo Z.div.
